@@ -5,6 +5,7 @@ import (
 	"context"
 	"fmt"
 	"math/rand"
+	"os"
 	"runtime"
 	"sort"
 	"strings"
@@ -18,11 +19,13 @@ import (
 
 // C18: OSM extraction.  A case is a document (file order, members, in-bounds
 // nodes, tagged objects), a keep function and either
-//   mode "gated": a TLC schedule (sequence of {o, a} steps) - the real worker
-//                 goroutines are parked at the verif yield points and released
-//                 one lock-delimited step at a time, following the schedule and
-//                 continuing with seeded random choices when it ends;
-//   mode "free":  plain repeated extraction under several GOMAXPROCS values.
+//
+//	mode "gated": a TLC schedule (sequence of {o, a} steps) - the real worker
+//	              goroutines are parked at the verif yield points and released
+//	              one lock-delimited step at a time, following the schedule and
+//	              continuing with seeded random choices when it ends;
+//	mode "free":  plain repeated extraction under several GOMAXPROCS values.
+//
 // Every run ends with a "result" event (ids kept, Check()) and "filter" events.
 func init() {
 	families["c18"] = &Family{Run: runC18, Random: randomC18, Sandbox: true, DeadlineMS: 30000}
@@ -266,7 +269,7 @@ func runGated(c map[string]interface{}, doc *osmDoc, keep string, w int) []Event
 	nObjs := len(doc.order)
 	parked := map[string]gateArr{} // worker (by its object) -> where it is parked
 	gotCount, passes := 0, 1
-	running := ""                  // worker released and not yet back at a gate
+	running := "" // worker released and not yet back at a gate
 	var runAct, runM = "", osmObj{}
 	var newGots []osmObj
 	finished, followed := false, true
@@ -276,7 +279,11 @@ func runGated(c map[string]interface{}, doc *osmDoc, keep string, w int) []Event
 		sched = arr(v)
 	}
 	si := 0
-	deadline := time.After(15 * time.Second)
+	schedDeadline := 15 * time.Second
+	if os.Getenv("VERIF_DEADLINE_SCALE") == "2" {
+		schedDeadline *= 2
+	}
+	deadline := time.After(schedDeadline)
 
 	step := func(o osmObj, act string, extra Event) {
 		e := Event{"ev": "step", "o": o.json(), "a": act, "has": false, "need": false, "m": []interface{}{"x", 0}, "again": false}
@@ -325,7 +332,15 @@ func runGated(c map[string]interface{}, doc *osmDoc, keep string, w int) []Event
 		step(o, runAct, ex)
 		running = ""
 	}
-	handle := func(a gateArr) {
+	// an object taken after every object of the current pass has been taken belongs to the next pass: the end-of-pass
+	// notification travels on another channel and may be seen later than the first takes of the next pass
+	var early []gateArr
+	var handle func(a gateArr)
+	handle = func(a gateArr) {
+		if a.point == "got" && gotCount == nObjs {
+			early = append(early, a)
+			return
+		}
 		if a.point == "got" {
 			parked[a.o.key()] = a
 			gotCount++
@@ -360,6 +375,11 @@ func runGated(c map[string]interface{}, doc *osmDoc, keep string, w int) []Event
 				if again {
 					gotCount = 0
 					passes++
+					es := early
+					early = nil
+					for _, a := range es {
+						handle(a)
+					}
 				} else {
 					<-doneCh
 					finished = true
